@@ -138,6 +138,11 @@ def catalogue(w, rng):
     add('apply-ite-with-one', lambda: bdd.apply('ite', a))
     # declarations
     add('add_var-other-level', lambda: bdd.add_var(v0, raw.vars[v0] + 1))
+    if n >= 2:
+        add('add_var-other-level-zero',
+            lambda: bdd.add_var(names[-1], 0))
+        add('add_var-other-level-any', lambda: bdd.add_var(
+            names[rng.randrange(n)], n + rng.randrange(2)))
     add('add_var-used-level', lambda: bdd.add_var('fresh_name', 0))
     # reorder
     if n >= 2:
@@ -336,7 +341,7 @@ def inject(w, ctx, kind, thunk, info):
     gc.collect()
     site = kind
     raw = w.raw
-    if raw._reordering_context:
+    if getattr(raw, '_reordering_context', False):
         raise Violation(site, 'nesting-flag-left-set', dict(info, exc=exc))
     if exc == '_NeedsReordering':
         # which exception the caller sees is C09's business (raw
@@ -389,7 +394,8 @@ def injected_history(ctx, spec):
                     gc=4, sift=1, reorder_to=1,
                     swap=2 if kind == 'bdd' else 0,
                     fop=3 if kind == 'autoref' else 0,
-                    traverse=1 if kind == 'autoref' else 0)
+                    traverse=1 if kind == 'autoref' else 0,
+                    rearm=3 if spec['dynamic'] else 0)
         kinds_raised = set()
         for k in range(spec['steps']):
             ok, res = ctx.guard(w.site, w.step, menu, case=dict(
